@@ -29,7 +29,7 @@ LEVEL_TEXT = ("Theorems over the scheduler bookkeeping for all wakeup maps and h
               "unless updated earlier).")
 LEVEL_NOTE = "Trusts: Lean kernel; hand-written bookkeeping model; whole-simulation comparison uses zero processing cost."
 ASSUMPTIONS = ["an interrupt's stamp is not later than the component's pending callback when processing cost is zero"]
-MON = ("callbacks", "tick_times", "device_order")
+MON = ("callbacks", "tick_times", "device_order", "tick_provenance")
 CORR = ("sim",)
 
 
@@ -83,6 +83,20 @@ def wakeups_diff(rng, n, drv, res):
                     w.pop(k, None)
 
 
+def shaped(rng):
+    """shapes named by the property: a re-triggerable watchdog (re-plans LATER whenever its input
+    changes), simultaneous callbacks, a periodic device that is also interrupted"""
+    P = 1_000_000
+    dev = lambda n, ins=None, cb=None, outs=("o",): {"name": n, "kind": "dev", "inputs": ins or {},
+                                                     "beh": {"outs": [{"port": p, "kind": "counter", "mod": 5, "v": 1} for p in outs], "cb": cb or {"kind": "none"}}}
+    return [
+        {"components": [dev("kick", cb={"kind": "period", "p": 6 * P}), dev("dog", {"i": ["kick", "o"]}, cb={"kind": "period", "p": 10 * P})], "n_ticks": 7},
+        {"components": [dev("a", cb={"kind": "period", "p": 5 * P}), dev("b", cb={"kind": "period", "p": 5 * P}), dev("c", {"i": ["a", "o"]}, cb={"kind": "period", "p": 10 * P})], "n_ticks": 6},
+        {"components": [dev("p", cb={"kind": "period", "p": 10 * P}), dev("q", {"i": ["p", "o"]})], "n_ticks": 7,
+         "stims": [{"real": 5 * P + 111, "comp": "p"}, {"real": 23 * P + 111, "comp": "p"}, {"real": 27 * P + 111, "comp": "q"}]},
+    ]
+
+
 def tweak(scn, rng):
     # make simultaneous callbacks likely and add interrupts between ticks
     if rng.random() < 0.5:
@@ -106,6 +120,13 @@ def run(tier, seed, drv):
                                    "between ticks; synchronous and delaying bus; tick sequence (time, roots, real start) and observations compared with the Lean "
                                    "model; device-level callback monitor; plus random add/first/serve sequences on a real scheduler's wakeup bookkeeping")
     wakeups_diff(random.Random(seed + 7), 300 if tier == "quick" else 4000, drv, res)
+    from sim import run_scenario
+    for scn in shaped(random.Random(seed)):
+        for b in ("sync", "held"):
+            run_ = run_scenario(scn, bus=b, seed=seed)
+            res.case(SC.scn_key(scn) + b, nontrivial=True)
+            res.count("shaped")
+            SC.check_run(scn, run_, drv, res, monitors_on=MON, corr=CORR, case_extra={"bus": b, "held_seed": seed}, with_real=True)
     return res
 
 
